@@ -79,21 +79,26 @@ P("C04", "proof", "Lean 4 theorems (acceptance rule, first-offender error, appen
   modules=["TypedPathVerif.Lemmas.Append", "TypedPathVerif.Props.C16b", "TypedPathVerif.Props.C04b"],
   rule=NONTRIV + "non-trivial = argument has >= 2 components or is rejected", design_ref="§5 C04")
 
-P("C05", "proof", "Lean 4 theorems (lexicographic total-order laws, eq iff components, hash factors through components) + model/code correspondence incl. exact hasher input",
+P("C05", "proof", "Lean 4 theorems (lexicographic total-order laws, eq iff components, the hash index loop = its component-level description) + model/code correspondence incl. exact hasher input",
   "Proved in Lean for both encodings and all byte strings: two paths are equal iff their component lists are equal with "
   "the prefix compared by parsed kind (eq_iff_comps); ordering is the lexicographic order on components built from "
   "the derived orders (cmp_lexicographic), it is a total order — antisymmetric, transitive, Equal a congruence "
-  "(cmp_total_order, cmp_transitive) — and says Equal exactly for equal paths (cmp_equal_iff_eq); the hasher input, as "
-  "the exact sequence of write calls described by hashSpec, is a function of the component list, so equal paths feed "
-  "identical data (eq_implies_same_hash). hashSpec and the byte-level model of the Rust hash loop are both compared "
-  "with the recorded Hasher::write calls of the implementation on every run.",
-  "That hashSpec describes the Rust hash loop is validated by differential testing (exact chunk sequences on ~30k "
-  "paths per encoding), not proved: the theorem is about hashSpec. The layout of #[derive(Hash)] / #[derive(Ord)] for "
-  "the pinned rustc is reproduced in the model. Owned / UTF-8 / typed / mixed impls and HashSet/BTreeSet lookups: "
-  "oracle (implementation vs implementation).",
+  "(cmp_total_order, cmp_transitive) — and says Equal exactly for equal paths (cmp_equal_iff_eq); the model of the Rust "
+  "hash loop (the `for i in 0..len` loop with component_start, the skipped `.` after a separator, the final slice and "
+  "write_usize) writes exactly hashSpec — the derived hash of the parsed prefix, the text of every component except "
+  "prefix and root, the byte count (C05b.hash_loop_eq_spec, via HashLoop.hashBody_toks) — so equal paths feed the "
+  "identical sequence of write calls to any hasher (eq_implies_same_hash, C05b.eq_implies_same_loop_hash). The loop's "
+  "indices are in range (C18.hash_index_in_range). hashSpec and the loop model are both compared with the recorded "
+  "Hasher::write calls of the implementation on every run.",
+  "The layout of #[derive(Hash)] / #[derive(Ord)] for the pinned rustc is reproduced in the model (trusted, and "
+  "diffed against the recorded chunks). Owned / UTF-8 / typed / mixed-type impls (every impl_cmp! / impl_cmp_bytes! "
+  "pair in both operand orders) and HashSet/BTreeSet lookups: oracle (implementation vs implementation). Model=code by "
+  "differential testing.",
   theorems=["TP.C05.eq_iff_comps", "TP.C05.cmp_lexicographic", "TP.C05.cmp_total_order", "TP.C05.cmp_transitive",
-            "TP.C05.cmp_equal_iff_eq", "TP.C05.eq_implies_same_hash", "TP.isOrd_lexCmp"],
-  modules=["TypedPathVerif.Lemmas.Order"],
+            "TP.C05.cmp_equal_iff_eq", "TP.C05.eq_implies_same_hash", "TP.isOrd_lexCmp",
+            "TP.C05b.hash_loop_eq_spec", "TP.C05b.eq_implies_same_loop_hash", "TP.HashLoop.hashBody_toks",
+            "TP.HashLoop.hashBody_eq_go"],
+  modules=["TypedPathVerif.Lemmas.Order", "TypedPathVerif.Props.C05b"],
   rule=NONTRIV + "pairs: each path with its re-spellings and random others; non-trivial = equal but differently spelled, or >= 2 components", design_ref="§5 C05")
 
 P("C06", "proof", "Lean 4 refinement theorems (Unix queries = StdSpec) + model/code and StdSpec/std correspondence; strip_prefix bytes partial (known finding K1)",
